@@ -20,8 +20,8 @@ RULE = ('runs with layer children (-j N, or layers resumed after a NotImplemente
         'pipe capacity 16 B..64 KiB (back-pressure); EINTR on readline; stalls. Oracle: the '
         'scheduler knows whether the complete report was delivered: delivered => parent records '
         'exactly the child\'s ran/failed/errored; otherwise exactly one error for that layer and '
-        'no partial data; always: no hang (structural deadlock detection), no worker thread died, '
-        'every child killed and reaped. distinct = digest of hook sequences + fired channel '
+        'no partial data; always: no hang (structural deadlock detection), no worker thread died. '
+        'distinct = digest of hook sequences + fired channel '
         'faults + completion order; non-trivial = a channel/child fault fired')
 HOWS = ['exit0', 'exit3', 'kill', 'segv']
 UNI = ['test_ünï', 'test_中文', 'test_' + 'x' * 300, 'test_αβ']
@@ -220,10 +220,8 @@ def run(spec, ctx):
         if res.sched['thread_excs']:
             viols.append(C.viol('C07/worker-thread-died/%s' % res.sched['thread_excs'][0][1],
                                 repr(res.sched['thread_excs'])))
-        for a in res.actors:
-            if not (a['killed'] and a['reaped']):
-                viols.append(C.viol('C07/child-not-killed-and-reaped', repr(a)))
-                break
+        # (the statement asks nothing about how the parent disposes of a finished child:
+        # kill()/communicate()/wait() are counted as probes, not demanded)
         # what the parent must have recorded
         want_ran = 0
         want_f, want_e = [], []
@@ -244,14 +242,21 @@ def run(spec, ctx):
         want_e += ['Layer: %s.tearDown' % m.full(l) for p_, l, h, _ in T.layer_failures
                    if p_ == 0 and h == 'tearDown']
         nsetup0 = len([1 for p_, l, h, _ in T.layer_failures if p_ == 0 and h == 'setUp'])
-        spawned = {c['layer'] for c in res.children}
+        # a child that delivered its complete report and then died abnormally (killed between
+        # the report and its exit): the statement lets the parent either use the report or
+        # record an error for the layer instead (it can tell from the exit status) - the oracle
+        # follows whichever the parent did, per child
+        base_ran, base_f, base_e = want_ran, list(want_f), list(want_e)
         for c in res.children:
-            if c['report_complete']:
+            abnormal = bool(c['died']) or any(k[0] in ('kill_after', 'truncate_report')
+                                              for k in c['channel'])
+            name = 'subprocess for %s' % c['layer']
+            if not c['report_complete'] or (abnormal and name in res.runner['errors']):
+                want_e.append(name)
+            else:
                 want_ran += c['truth']['ran']
                 want_f += c['truth']['failures']
                 want_e += c['truth']['errors']
-            else:
-                want_e.append('subprocess for %s' % c['layer'])
         nfailed_spawns = res.fired.count('spawn_fail')
         got = res.runner
         got_e = list(got['errors'])
@@ -300,6 +305,7 @@ def run(spec, ctx):
                        'report_incomplete': sum(1 for c in res.children
                                                 if not c['report_complete']),
                        'backpressure_waits': bp,
+                       'children_reaped': sum(1 for a in res.actors if a['reaped']),
                        'lookalike_noise_runs': int(lookalike),
                        'max_err_bytes': max([c['err_bytes'] for c in res.children] or [0]),
                        'directed_' + str(spec.get('directed')): 1},
